@@ -2,10 +2,10 @@
 From Util Require Import Common.Base Common.ListLemmas RefCount.Model RefCount.Spec RefCount.Proofs RefCount.ProofsC08.
 
 Lemma codec_resreturn_wf h g hr er h' o :
-  hstep h [8%N; g; hr; er] = Some (h', o) ->
+  hconst h = false -> hstep h [8%N; g; hr; er] = Some (h', o) ->
   exists e, wf_ev e /\ hs h' = settle (step repaired (hs h) e).
 Proof.
-  unfold hstep. destruct (nth_error (gs (hs h)) (n2n g)) as [x|]; [|discriminate].
+  intros Hc. unfold hstep. rewrite Hc. destruct (nth_error (gs (hs h)) (n2n g)) as [x|]; [|discriminate].
   destruct (gpcv x); try discriminate. destruct (N.eqb_spec er 1) as [E|E]; [discriminate|].
   intros H. inversion H; subst. exists (EResReturn (n2n g) (S (n2n g)) (nz hr) (n2n er)). split; [|reflexivity].
   split; [reflexivity|]. intros E1. apply E. apply N2Nat.inj. exact E1.
